@@ -31,6 +31,29 @@ holds a byte that is a line boundary or a blank in Latin-1 (0x85, 0xA0; 0x0A/0x0
 UTF-16).  The oracle is unchanged - the model document, code point for code point -
 and ``uni:<class>:<api>:<form>`` counters (with floors) say which (class x API x
 input form) cells saw such values.
+
+OUTPUT ROUTES (extension): every paragraph of EVERY case is written through every output route of the library -
+``dump()`` returning str, ``dump(fd)`` into io.BytesIO (with and without an explicit encoding), ``dump(fd,
+text_mode=True)`` into io.StringIO, ``str(p)``, ``bytes(p)``, ``dump(fd)`` into REAL files opened 'wb' (default buffer
+of io.DEFAULT_BUFFER_SIZE, unbuffered, odd buffer sizes; the file already holds a pad of 0..8193 bytes so that the
+writer's buffer is at an arbitrary fill level), ``dump(fd, text_mode=True)`` into a real file opened 'w' and into an
+io.TextIOWrapper - and ``get_as_string`` is read per field.  Routes are grouped by the text they produced: the group of
+the case's rotating primary route is re-read through the whole form grid as before; the text of every OTHER group (on
+the unchanged tree there is none: all routes agree) is re-read too (four containers x API) and judged against the same
+model, key ``<what>/output-route=<routes>``.  A difference in TEXT alone is counted, not judged (the statement speaks
+of what comes back from re-parsing).
+
+"big" class (extension): documents with LARGE content - a field whose dumped entry is exactly 4096 / 8191 / 8192 /
+8193 / 16384 / 65536 bytes (and random sizes around multiples of 8192) as one long line, as thousands of short
+continuation lines, as medium lines, or as one very long continuation line, placed alone / first / between / last
+among small hostile fields and in multi-paragraph documents; 200+ fields in one paragraph; single lines of 10k..100k+
+characters; values of 1000+ continuation lines.  Big texts are generated from compact, seeded specs kept in the case
+(replay files stay small) and consist of numbered tokens (w0 w1 ... / c0 c1 ...), so loss, duplication and reordering
+are unambiguous; about two thirds carry multi-byte characters (a chunk boundary inside a character).  Big documents go
+through every output route and a rotating THIRD of the form grid (every case: two plain cells + one armoured cell,
+half of the in-memory containers per cell + the rotating real-file forms); ``big:<class>:route:<route>``,
+``big:<class>:form:<form>`` and ``big:<class>:api:<api>`` counters, measured on the text the library really dumped,
+carry floors.
 """
 import io
 import os
@@ -70,7 +93,21 @@ RULE = ('Model documents of 1..4 paragraphs x 1..6 fields: names over policy-val
         'with the atom last before and first after the paragraph boundary.  "uni" documents also get comment lines and a '
         'Comment: armour header (signature block) carrying such atoms.  All of them go through the same dump -> every '
         'form -> compare-with-the-model path; the whole document is given as ONE str and as ONE bytes object to Deb822() '
-        '(single paragraphs) and to iter_paragraphs (all), besides lists of lines and file objects.')
+        '(single paragraphs) and to iter_paragraphs (all), besides lists of lines and file objects.  OUTPUT ROUTES: every '
+        'paragraph of every document is written through every output route - dump() returning str, dump(fd) into BytesIO '
+        '(with / without explicit encoding), dump(fd, text_mode=True) into StringIO, str(p), bytes(p), dump(fd) into real '
+        'files opened "wb" (default buffer, unbuffered, odd buffer sizes 2..65536; a pad of 0..8193 bytes already written), '
+        'dump(fd, text_mode=True) into a real file opened "w" and into a TextIOWrapper - and get_as_string is read per '
+        'field; routes are grouped by the text they produced, the group of the rotating primary route is re-read through the '
+        'form grid, the text of every other group through 4 containers x API, all against the model.  "big" class (72 quick '
+        '/ 3600 thorough random + an enumerated grid): a field whose dumped entry is exactly 4096 / 8191 / 8192 / 8193 / '
+        '16384 / 65536 bytes (x alone / first / between / last among small hostile fields x long line / thousands of '
+        'short continuation lines / medium lines / one long continuation line), random sizes around k*8192 and 3000..20000, '
+        'two big entries, 200..1200 fields with unsorted numbered names, single lines of 10k..140k characters, values of '
+        '1000..6000 continuation lines, alone and inside multi-paragraph documents; ASCII / latin-1 / multi-byte contents; '
+        'numbered tokens so that loss, duplication and reordering are unambiguous.  A big document goes through every output '
+        'route and a rotating third of the form grid (two plain cells differing in comments AND leading blanks, one armoured '
+        'cell; half of the in-memory containers per cell + the real-file forms of the cell).')
 ASSUMPTIONS = [
     'domain: field names are printable ASCII 33..126 without colon, not starting with "#" or "-", distinct case-insensitively '
     'within a paragraph, and not one of the structured fields of Dsc/Changes (files, checksums-*)',
@@ -104,6 +141,21 @@ ASSUMPTIONS = [
     'GUARD (under-demand): Dsc/Changes on a text file whose declared encoding is not ASCII-compatible (utf-16) are executed on a '
     'sample and only COUNTED (unjudged:gpg-api-on-non-utf8-text-file:*): the gpg-aware classes search the armour markers in the '
     'encoded BYTES, and the quantifier speaks of printable/UTF-8 values; Deb822(f) and iter_paragraphs(f) are judged for utf-16 too',
+    'output routes: every route is a way of "dumping" in the sense of the statement, so the text of EVERY route must re-read as '
+    'the model; binary routes are decoded as UTF-8 (the encoding of the object / the explicit encoding= argument; bytes(p) uses '
+    'the object\'s encoding, UTF-8); files for the text routes are opened with encoding="utf-8" by the harness (the caller\'s job '
+    'with text_mode=True - also under the ASCII-locale ambient) and are read back in binary; the harness closes every file before '
+    'reading it back (nothing is demanded of what is on disk before close/flush)',
+    'GUARD (under-demand): two output routes that give DIFFERENT TEXTS which both re-read as the model are not a violation (the '
+    'statement speaks of what comes back from dump -> re-parse, not of the bytes of the dump); such a case is counted as '
+    'unjudged:output-route-text-differs-but-re-reads-as-the-model (0 on the unchanged tree: all routes agree)',
+    'GUARD (under-demand): get_as_string(name) is compared with the ASSIGNED value modulo the trimming of blanks/tabs at the '
+    'edges of the first line only (the one normalisation the statement allows); whether dump() ends in a newline is not judged '
+    '(dumps are cut into lines and re-joined by the harness)',
+    '"big" class: sizes are those of the dumped ENTRY ("Name: value" + newline, UTF-8 bytes) as measured on the text the library '
+    'wrote; the generators aim at exact sizes using the documented dump layout, the size-class counters (and their floors) use '
+    'the measurement; big contents stay inside the same domain as all other values (in_domain() is applied to the expanded '
+    'document); the reduced form grid of big documents is a COST bound, not a domain restriction',
 ]
 ANCHORS = ['debian.deb822:Deb822._internal_parser',
            'debian.deb822:Deb822._skip_useless_lines',
@@ -126,12 +178,13 @@ MUST_REACH = ['debian.deb822:Deb822._internal_parser',
               'debian.deb822:_gpg_multivalued.__init__',
               'debian.deb822:_AutoDecoder.decode']
 
-DOCS = {'quick': 3000, 'thorough': 160000}      # random documents (TOTAL over shards); + the enumerated grids
+DOCS = {'quick': 2600, 'thorough': 160000}      # random documents (TOTAL over shards); + the enumerated grids
 UNI_EVERY = 5                                   # one random document in UNI_EVERY is a "uni" document
 
 FLOORS = {
     'quick': {
-        # ~50% of the minimum a run on the current tree measures over VERIF_SEED 0..3
+        # ~50% of the minimum a run on the current tree measures over VERIF_SEED 0..3 (measured with 3000 random documents;
+        # with the 2600 of today the floors are 50-58% of that minimum)
         'nontrivial': 1900,
         'monitors': {'M': 230000, 'M.armour': 130000, 'M.binfile': 14000, 'M.comments': 110000, 'M.encfile': 44000,
                      'M.lead': 110000, 'M.uni': 120000},
@@ -155,8 +208,8 @@ FLOORS = {
                      'feat:uni-cont-line-not-nfc': 700, 'feat:uni-first-line-ends-in-byte-85': 140,
                      'feat:uni-first-line-ends-in-byte-A0': 160, 'feat:uni-first-line-inner-unicode-blank': 170,
                      'feat:uni-first-line-not-nfc': 510, 'feat:uni-not-nfc': 180, 'feat:uni-not-nfd': 1200,
-                     'uni:filebytes:8bit:85:Changes': 27, 'uni:filebytes:8bit:85:Deb822': 54,
-                     'uni:filebytes:8bit:85:Dsc': 27, 'uni:filebytes:8bit:85:iter_paragraphs': 100,
+                     'uni:filebytes:8bit:85:Changes': 18, 'uni:filebytes:8bit:85:Deb822': 36,
+                     'uni:filebytes:8bit:85:Dsc': 18, 'uni:filebytes:8bit:85:iter_paragraphs': 87,
                      'uni:filebytes:8bit:A0:Changes': 83, 'uni:filebytes:8bit:A0:Deb822': 160,
                      'uni:filebytes:8bit:A0:Dsc': 83, 'uni:filebytes:8bit:A0:iter_paragraphs': 340,
                      'uni:filebytes:utf-16:0A-0D-85:Deb822': 180,
@@ -247,6 +300,66 @@ ASCII_COMPATIBLE_8BIT = frozenset(['iso-8859-1', 'latin-1', 'cp1252'])
 TW_NEWLINES = (None, None, '', '\n')
 UNJUDGED_SAMPLE = 8          # the unjudged Dsc/Changes forms are executed (and counted) for 1 case in 8
 DUMP_MODES = ('str', 'fd_b', 'fd_b_enc', 'fd_t')
+# every output route of a paragraph (the first four are the rotating PRIMARY routes of a case, as before)
+ROUTES = DUMP_MODES + ('str()', 'bytes()', 'file_wb', 'file_wb_unbuffered', 'file_wb_oddbuf', 'file_wt', 'tw_t')
+ODD_BUFFERS = (2, 16, 512, 4096, 8191, 8193, 65536)
+FILE_PADS = (0, 0, 0, 1, 7, 100, 4095, 4096, 8191, 8192, 8193)
+BIG_DOCS = {'quick': 72, 'thorough': 3600}       # random "big" documents (TOTAL over shards); + the enumerated big grid
+BIG_SIZES = (4096, 8191, 8192, 8193, 16384, 65536)
+BIG_PLACES = ('alone', 'first', 'mid', 'last')
+BIG_SHAPES = ('line', 'lines', 'first+lines', 'long-cont')
+BIG_TAGS = ('entry>=8192', 'entry>=65536', 'fields>=200', 'line>=10000', 'conts>=1000')
+# Floors of the OUTPUT-ROUTE / "big" extension.  Rule: ~50% of the minimum measured on the current tree over VERIF_SEED 0..3
+# (thorough: seed 0); a QUARTER where that minimum is below 40 (small counts of expensive documents vary more from seed to
+# seed).  Per size class (measured on the text the library really dumped): 'paragraphs' is the floor of big:<class> AND of every
+# big:<class>:route:<route> counter (every paragraph goes through every output route - a run in which large entries did not
+# reach some route is INCONCLUSIVE); 'api' = (iter_paragraphs, Deb822, Dsc, Changes); 'form' = one number per form group of
+# UNI_FORM_GROUPS (in-memory containers, real binary file, text file utf-8, 8-bit, utf-16).
+BIG_API_ORDER = ('iter_paragraphs', 'Deb822', 'Dsc', 'Changes')
+BIG_FLOORS = {
+    'quick': {
+        'entry>=8192': {'paragraphs': 43, 'armour': 620, 'comments': 660, 'api': (590, 490, 140, 140), 'form': (120, 130, 65, 59, 51)},
+        'entry>=65536': {'paragraphs': 3, 'armour': 100, 'comments': 100, 'api': (91, 86, 23, 23), 'form': (22, 9, 4, 3, 3)},
+        'fields>=200': {'paragraphs': 2, 'armour': 36, 'comments': 36, 'api': (50, 26, 4, 4), 'form': (4, 4, 2, 1, 2)},
+        'line>=10000': {'paragraphs': 6, 'armour': 210, 'comments': 240, 'api': (190, 170, 49, 49), 'form': (43, 43, 9, 5, 5)},
+        'conts>=1000': {'paragraphs': 3, 'armour': 71, 'comments': 81, 'api': (88, 60, 8, 8), 'form': (8, 8, 4, 3, 1)},
+        'line>=100000': {'paragraphs': 1},
+    },
+    'thorough': {
+    },
+}
+BIG_FLAT_FLOORS = {
+    'quick': {'counters': {'big:class:long-line': 3, 'big:class:many-conts': 2, 'big:class:many-fields': 2, 'big:class:threshold': 40,
+                           'big:entry-bytes=16384': 2, 'big:entry-bytes=4096': 3, 'big:entry-bytes=65536': 2,
+                           'big:entry-bytes=8191': 2, 'big:entry-bytes=8192': 2, 'big:entry-bytes=8193': 2,
+                           'big:entry-bytes=k*8192+-2': 1, 'big:paragraph-bytes>=8192': 48, 'big:place:alone': 6,
+                           'big:place:between': 7, 'big:place:first': 5, 'big:place:last': 6, 'doc:big': 63},
+              'route': 3100,                       # every route:<route> counter (paragraphs written through that route)
+              'monitors': {'M.big': 1900, 'M.get_as_string': 11000}},
+    'thorough': {'counters': {}, 'route': 0, 'monitors': {}},
+}
+for _tier, _table in BIG_FLOORS.items():
+    _c = FLOORS[_tier]['counters']
+    _c.update(BIG_FLAT_FLOORS[_tier]['counters'])
+    FLOORS[_tier]['monitors'].update(BIG_FLAT_FLOORS[_tier]['monitors'])
+    for _rt in ROUTES:
+        if BIG_FLAT_FLOORS[_tier]['route']:
+            _c['route:%s' % _rt] = BIG_FLAT_FLOORS[_tier]['route']
+    for _tag, _row in _table.items():
+        if _row.get('paragraphs'):
+            _c['big:%s' % _tag] = _row['paragraphs']
+            for _rt in ROUTES:
+                _c['big:%s:route:%s' % (_tag, _rt)] = _row['paragraphs']
+        for _k in ('armour', 'comments'):
+            if _row.get(_k):
+                _c['big:%s:%s' % (_tag, _k)] = _row[_k]
+        for _api, _floor in zip(BIG_API_ORDER, _row.get('api', ())):
+            if _floor:
+                _c['big:%s:api:%s' % (_tag, _api)] = _floor
+        for _forms, _floor in zip(UNI_FORM_GROUPS, _row.get('form', ())):
+            if _floor:
+                for _f in _forms:
+                    _c['big:%s:form:%s' % (_tag, _f)] = _floor
 STRUCTURED = frozenset(['files', 'checksums-sha1', 'checksums-sha256', 'checksums-sha512'])
 
 # ---------------------------------------------------------------------------
@@ -504,6 +617,252 @@ def uni_grid_docs():
         i += 1
 
 
+# --- "big" class: LARGE content, kept in the case as compact seeded specs -------------------------------------------
+# A compact document is a document in which
+#   * a first line may be        {'line': [nbytes, seed, alpha, head]}
+#   * a continuation item may be {'line': [nbytes, seed, alpha, head, lead]}  (ONE line: lead + head + text) or
+#                                {'lines': {'seed', 'alpha', 'w': [lo, hi], 'n' | 'bytes'}}  (MANY lines)
+#   * a field item may be        {'fields': [n, seed, alpha]}  (n small fields with distinct, unsorted names)
+# expand_doc() turns it into a plain document (model side only; deterministic: random.Random(str) and nothing else).
+BIG_SEPS = {'ascii': [' ', ' ', ' ', '  ', '\t', ':', ': ', ',', ', ', '#', ' #', '=', '-', '.', ' K: ', '/', '(', ')', ' -----']}
+BIG_SEPS['latin1'] = BIG_SEPS['ascii'] + ['\xe9', ' \xfc', '\xdf ', '\xe9\xe8', ' \xa3 ']
+BIG_SEPS['mixed'] = BIG_SEPS['ascii'] + ['\xe9', '漢', '\xfc ', ' €', '\xe9漢字', '\U0001f605', ' ą']
+BIG_ALPHAS = ('ascii', 'latin1', 'mixed', 'mixed')
+BIG_FILL = 'abcdefghijklmnopqrstuvwxyzABCXYZ0123456789_+~'
+CONT_HEADS = ['', '', '', '', '#', '# ', 'K: ', ':', '.', '- ', '-----BEGIN PGP SIGNATURE-----', 'Package: ', '=']
+
+
+def _big_text(rr, nbytes, alpha, tag='w'):
+    """One line of exactly `nbytes` bytes of UTF-8: numbered tokens joined by hostile separators; no line break, no blank
+    at either end."""
+    if nbytes <= 0:
+        return ''
+    seps = BIG_SEPS[alpha]
+    parts, size, i = [], 0, 0
+    while True:
+        piece = (rr.choice(seps) if parts else '') + '%s%d' % (tag, i)
+        if rr.random() < 0.5:
+            k = rr.randrange(len(BIG_FILL))
+            piece += (BIG_FILL[k:] + BIG_FILL)[:rr.randint(1, 60)]
+        b = len(piece) if piece.isascii() else len(piece.encode('utf-8'))
+        if size + b > nbytes:
+            if not parts and nbytes > len(tag):
+                parts.append(('%s%d' % (tag, i))[:nbytes])          # (the id of a short line must not be padded away)
+                size = len(parts[0])
+            break
+        parts.append(piece)
+        size += b
+        i += 1
+    parts.append('x' * (nbytes - size))
+    return ''.join(parts)
+
+
+def big_line(spec):
+    nbytes, seed, alpha = spec[0], spec[1], spec[2]
+    head = spec[3] if len(spec) > 3 else ''
+    lead = spec[4] if len(spec) > 4 else ''
+    rr = random.Random('C02-bigline/%s' % seed)
+    return lead + head + _big_text(rr, nbytes - len(lead) - len(head), alpha)
+
+
+def big_lines(spec):
+    """Continuation lines c0, c1, ... (lead blank/tab, hostile heads, trailing blanks); with 'bytes': sum(len(utf8)+1)
+    over the lines is exactly that number."""
+    rr = random.Random('C02-biglines/%s' % spec['seed'])
+    alpha, (lo, hi) = spec['alpha'], spec['w']
+    n, budget = spec.get('n'), spec.get('bytes')
+    out, total, i = [], 0, 0
+    while n is None or i < n:
+        head = rr.choice(CONT_HEADS)
+        tag = 'c%d.' % i
+        line = rr.choice(LEADS) + head + _big_text(rr, max(len(tag) + 1, rr.randint(lo, hi) - len(head)), alpha, tag) \
+            + rr.choice(TRAILS)
+        cost = len(line.encode('utf-8')) + 1
+        if budget is not None and total + cost > budget:
+            rest = budget - total
+            if rest >= 3:
+                out.append(' ' + 'z' * (rest - 2))
+            elif rest and out:
+                out[-1] += 'x' * rest
+            break
+        out.append(line)
+        total += cost
+        i += 1
+        if budget is not None and total == budget:
+            break
+    return out
+
+
+def big_fields(spec):
+    """n small fields with distinct names that are NOT in sorted order; the number in a name identifies the field."""
+    n, seed, alpha = spec
+    rr = random.Random('C02-bigfields/%s' % seed)
+    nums = list(range(n))
+    rr.shuffle(nums)
+    seps = BIG_SEPS[alpha]
+    out = []
+    for j, num in enumerate(nums):
+        name = rr.choice(['G', 'g', 'X-G', 'Zz', 'a', '_', '0x', '+', 'Field']) + '.%d.' % num + rr.choice(['', '', 'x', '-Y', '_z', '!'])
+        first = rr.choice(PADS_L) + rr.choice(['v%d' % num, 'v%d' % num, '', ':%d' % num, '#%d' % num, 'a%sb %d' % (rr.choice(seps), num)]) \
+            + rr.choice(PADS_R)
+        conts = []
+        if rr.random() < 0.15:
+            conts = [rr.choice(LEADS) + rr.choice(CONT_HEADS) + 'c%d.%d' % (num, k) + rr.choice(seps).rstrip(' \t') + 'q' + rr.choice(TRAILS)
+                     for k in range(rr.randint(1, 3))]
+        out.append([name, first, conts])
+    return out
+
+
+def expand_doc(doc):
+    """compact document -> plain document [[name, first, [continuation lines]]...] (plain documents pass through)."""
+    out = []
+    for para in doc:
+        p = []
+        for item in para:
+            if isinstance(item, dict):
+                p.extend(big_fields(item['fields']))
+                continue
+            name, first, conts = item
+            if isinstance(first, dict):
+                first = big_line(first['line'])
+            cs = []
+            for c in conts:
+                if isinstance(c, dict):
+                    if 'line' in c:
+                        cs.append(big_line(c['line']))
+                    else:
+                        cs.extend(big_lines(c['lines']))
+                else:
+                    cs.append(c)
+            p.append([name, first, cs])
+        out.append(p)
+    return out
+
+
+def is_compact(doc):
+    return any(isinstance(item, dict) or isinstance(item[1], dict) or any(isinstance(c, dict) for c in item[2])
+               for para in doc for item in para)
+
+
+def big_entry(name, size, shape, seed, alpha):
+    """A field [name, first, conts] (compact) whose dumped entry - 'Name: first\\n cont\\n...' in the documented dump format -
+    is exactly `size` bytes (name is ASCII)."""
+    rr = random.Random('C02-bigentry/%s' % seed)
+    if shape == 'line':
+        return [name, {'line': [size - len(name) - 3, seed, alpha, rr.choice(['', '', ':', '#', 'a: '])]}, []]
+    if shape == 'lines':
+        # empty first line: 'Name:' + ('\n' + line)* + '\n'
+        return [name, '', [{'lines': {'seed': seed, 'alpha': alpha, 'w': [2, 60], 'bytes': size - len(name) - 2}}]]
+    first = rr.choice(['v1', 'a b', ':x', 'x'])
+    rest = size - len(name) - 1 - (1 + len(first)) - 1          # bytes left for ('\n'-terminated) continuation lines
+    if shape == 'first+lines':
+        return [name, first, [{'lines': {'seed': seed, 'alpha': alpha, 'w': [60, 400], 'bytes': rest}}]]
+    c1, c2 = rr.choice([' a', '\tK: v', ' #c']), rr.choice([' z', ' .', '\tz\t'])
+    if rr.random() < 0.5:
+        return [name, first, [c1, {'line': [rest - len(c1) - 1 - 1, seed, alpha, rr.choice(['', '#', 'K: ']), rr.choice(' \t')]}]]
+    return [name, first, [c1, {'line': [rest - len(c1) - 1 - len(c2) - 1 - 1, seed, alpha, rr.choice(['', '#', 'K: ']),
+                                        rr.choice(' \t')]}, c2]]
+
+
+def small_fields(r, used, n):
+    out = []
+    for _ in range(n):
+        name = gen_name(r, used)
+        out.append([name, gen_first(r), [gen_cont(r) for _ in range(r.choice([0, 0, 0, 1, 2]))]])
+    return out
+
+
+def place_fields(r, big, place):
+    """`big` (a list of field items) alone / first / between / last among small hostile fields."""
+    used = set(['big', 'big2'])
+    if place == 'alone':
+        return list(big)
+    if place == 'first':
+        return list(big) + small_fields(r, used, r.randint(1, 4))
+    if place == 'last':
+        return small_fields(r, used, r.randint(1, 4)) + list(big)
+    return small_fields(r, used, r.randint(1, 3)) + list(big) + small_fields(r, used, r.randint(1, 3))
+
+
+def big_grid_docs(seed):
+    """Enumerated: every threshold size x placement x two of the four shapes (all four over the placements), + the extremes
+    (100k-character lines, 200 / 600 fields, 1000 / 5000 continuation lines).  Yields (index, compact doc, class)."""
+    i = 0
+    for si, size in enumerate(BIG_SIZES):
+        for pi, place in enumerate(BIG_PLACES):
+            for k in (0, 1):
+                r = random.Random('C02-biggrid/%d/%d' % (seed, i))
+                shape = BIG_SHAPES[(si + pi + 2 * k) % 4]
+                alpha = BIG_ALPHAS[(i + seed) % len(BIG_ALPHAS)]
+                entry = big_entry('Big', size, shape, 'g%d.%d' % (seed, i), alpha)
+                yield i, [place_fields(r, [entry], place)], 'threshold'
+                i += 1
+    for k, (cls, item) in enumerate([
+            ('long-line', ['Big', {'line': [100000, 'gl1.%d' % seed, 'ascii', '']}, []]),
+            ('long-line', ['Big', 'v', [' a', {'line': [130000, 'gl2.%d' % seed, 'mixed', '', '\t']}, ' z']]),
+            ('many-fields', {'fields': [200, 'gf1.%d' % seed, 'mixed']}),
+            ('many-fields', {'fields': [600, 'gf2.%d' % seed, 'ascii']}),
+            ('many-conts', ['Big', '', [{'lines': {'seed': 'gc1.%d' % seed, 'alpha': 'mixed', 'w': [2, 30], 'n': 1000}}]]),
+            ('many-conts', ['Big', 'v', [{'lines': {'seed': 'gc2.%d' % seed, 'alpha': 'ascii', 'w': [2, 12], 'n': 5000}}]])]):
+        r = random.Random('C02-biggrid/%d/%d' % (seed, i))
+        yield i, [place_fields(r, [item], BIG_PLACES[(k + seed) % 4])], cls
+        i += 1
+
+
+def gen_big_doc(r, quick):
+    """A random "big" document.  -> (compact doc, class)"""
+    seed = '%08x' % r.getrandbits(32)
+    alpha = r.choice(BIG_ALPHAS)
+    k = r.random()
+    if k < 0.50:
+        cls = 'threshold'
+        j = r.random()
+        if j < 0.35:
+            size = r.choice(BIG_SIZES[:5])
+        elif j < 0.40:
+            size = 65536 + r.choice([-1, 0, 1])
+        elif j < 0.70:
+            size = 8192 * r.randint(1, 3) + r.choice([-2, -1, 0, 1, 2])
+        else:
+            size = r.randint(3000, 20000)
+        big = [big_entry('Big', size, r.choice(BIG_SHAPES), seed, alpha)]
+        if r.random() < 0.2:
+            big.append(big_entry('Big2', r.choice([4096, 8192, 8193, r.randint(3000, 12000)]), r.choice(BIG_SHAPES), seed + 'b', alpha))
+    elif k < 0.67:
+        cls = 'many-fields'
+        big = [{'fields': [r.randint(200, 320) if quick or r.random() < 0.8 else r.randint(320, 1200), seed, alpha]}]
+    elif k < 0.85:
+        cls = 'long-line'
+        n = r.randint(11000, 30000) if r.random() < (0.85 if quick else 0.7) else r.randint(60000, 140000)
+        if r.random() < 0.5:
+            big = [['Big', {'line': [n, seed, alpha, r.choice(['', '', ':', '#'])]}, [gen_cont(r) for _ in range(r.choice([0, 0, 1, 2]))]]]
+        else:
+            big = [['Big', gen_first(r), [gen_cont(r) for _ in range(r.choice([0, 1, 2]))]
+                    + [{'line': [n, seed, alpha, r.choice(['', '', '#', 'K: ']), r.choice(' \t')]}]
+                    + [gen_cont(r) for _ in range(r.choice([0, 0, 1, 2]))]]]
+    else:
+        cls = 'many-conts'
+        n = r.randint(1000, 1800) if quick or r.random() < 0.7 else r.randint(1800, 6000)
+        big = [['Big', r.choice(['', '', 'v', gen_first(r)]), [{'lines': {'seed': seed, 'alpha': alpha, 'w': [2, r.choice([8, 30, 80])], 'n': n}}]]]
+    para = place_fields(r, big, r.choice(BIG_PLACES))
+    table = PROFILE_TABLES['ascii' if alpha == 'ascii' else ('latin1' if alpha == 'latin1' else 'any')]
+    doc = [para]
+    if r.random() < 0.35:
+        # multi-paragraph: small paragraphs before / after the big one
+        doc = [gen_paragraph(r) for _ in range(r.choice([0, 1, 1, 2]))] + doc + [gen_paragraph(r) for _ in range(r.choice([0, 1, 1]))]
+    out = []
+    for p in doc:
+        q = []
+        for item in p:
+            if isinstance(item, dict):
+                q.append(item)
+            else:
+                q.append([item[0], item[1].translate(table) if isinstance(item[1], str) else item[1],
+                          [c.translate(table) if isinstance(c, str) else c for c in item[2]]])
+        out.append(q)
+    return out, cls
+
+
 # ---------------------------------------------------------------------------
 # model side helpers
 
@@ -742,8 +1101,178 @@ def diff(expected, got):
             else:
                 kind = 'continuation-line-altered'
             # ascii(): values that differ only in code points (normalisation) print alike otherwise
-            return (kind, 'paragraph %d field %r: expected %a, got %a' % (pi, k, ev, gv))
+            return (kind, 'paragraph %d field %r: expected %s' % (pi, k, show_pair(ev, gv)))
     return None
+
+
+def show_pair(ev, gv, limit=400):
+    """'<expected>, got <got>'; long values are shown around the first difference only."""
+    if len(ev) <= limit and len(gv) <= limit:
+        return '%a, got %a' % (ev, gv)
+    at = 0
+    n = min(len(ev), len(gv))
+    while at < n and ev[at] == gv[at]:
+        at += 1
+    lo = max(0, at - 60)
+    return '%d characters / %d lines, got %d characters / %d lines; first difference at character %d: expected ...%a..., got ...%a...' % (
+        len(ev), ev.count('\n') + 1, len(gv), gv.count('\n') + 1, at, ev[lo:at + 100], gv[lo:at + 100])
+
+
+def show_lines(lines, limit=3000):
+    """The input lines for a message; a big input is abbreviated."""
+    if sum(len(l) for l in lines) <= limit and len(lines) <= 200:
+        return '%a' % (lines,)
+    head = [l if len(l) <= 160 else l[:120] + '...(%d characters)' % len(l) for l in lines[:6]]
+    return '%a ... (%d lines, %d characters in all)' % (head, len(lines), sum(len(l) + 1 for l in lines))
+
+
+class RouteFailure(Exception):
+    def __init__(self, kind, msg):
+        Exception.__init__(self, kind, msg)
+        self.kind, self.msg = kind, msg
+
+
+def route_text(route, d, tmp, rr):
+    """The text paragraph object `d` produces through output route `route` (see ROUTES).  Real files are created
+    afresh (unlink first: no O_TRUNC on a file holding data), get a pad of comment bytes written by the harness BEFORE the
+    library writes (so the writer's buffer is at an arbitrary fill level), are closed and read back in binary."""
+    raw = None
+    try:
+        if route == 'str':
+            out = d.dump()
+        elif route == 'str()':
+            out = str(d)
+        elif route == 'bytes()':
+            raw = bytes(d)
+        elif route == 'fd_b':
+            fd = io.BytesIO()
+            d.dump(fd)
+            raw = fd.getvalue()
+        elif route == 'fd_b_enc':
+            fd = io.BytesIO()
+            d.dump(fd, encoding='utf-8')
+            raw = fd.getvalue()
+        elif route == 'fd_t':
+            fd = io.StringIO()
+            d.dump(fd, text_mode=True)
+            out = fd.getvalue()
+        elif route == 'tw_t':
+            bio = io.BytesIO()
+            fd = io.TextIOWrapper(bio, encoding='utf-8', newline=rr.choice(['\n', '', None]),
+                                  write_through=rr.random() < 0.3)
+            d.dump(fd, text_mode=True)
+            fd.flush()
+            raw = bio.getvalue()
+            fd.close()
+        else:
+            path = os.path.join(tmp, 'out.' + route)
+            try:
+                os.unlink(path)
+            except FileNotFoundError:
+                pass
+            npad = rr.choice(FILE_PADS) if rr.random() < 0.8 else rr.randrange(9000)
+            pad = ('#' + 'p' * (npad - 2) + '\n')[-npad:] if npad else ''
+            if route == 'file_wt':
+                fd = open(path, 'w', encoding='utf-8', newline=rr.choice(['\n', '', None]))
+                with fd:
+                    fd.write(pad)
+                    d.dump(fd, text_mode=True)
+            else:
+                if route == 'file_wb':
+                    fd = open(path, 'wb')
+                elif route == 'file_wb_unbuffered':
+                    fd = open(path, 'wb', buffering=0)
+                else:
+                    fd = open(path, 'wb', buffering=rr.choice(ODD_BUFFERS))
+                with fd:
+                    fd.write(pad.encode('ascii'))
+                    d.dump(fd, encoding=rr.choice([None, None, 'utf-8']))
+            with open(path, 'rb') as f:
+                raw = f.read()
+            if raw[:npad] == pad.encode('ascii'):
+                raw = raw[npad:]
+    except Exception as e:
+        raise RouteFailure('dump-raises/%s' % type(e).__name__, 'output route %s raised %r' % (route, e))
+    if raw is not None:
+        if not isinstance(raw, bytes):
+            raise RouteFailure('dump-returns-no-text', 'output route %s gave %r' % (route, raw))
+        try:
+            out = raw.decode('utf-8')
+        except UnicodeDecodeError as e:
+            raise RouteFailure('dump-output-not-utf-8', 'output route %s wrote bytes that are not UTF-8: %r' % (route, e))
+    if not isinstance(out, str):
+        raise RouteFailure('dump-returns-no-text', 'output route %s returned %r' % (route, out))
+    return out
+
+
+def dumped_lines(text):
+    dl = text.split('\n')
+    if dl and dl[-1] == '':
+        dl.pop()
+    return dl
+
+
+def size_tags(text, ctx=None):
+    """Size classes of ONE dumped paragraph, measured on the text the library produced: an entry = a line that does not start
+    with a blank/tab + the lines that do.  -> set of BIG_TAGS (+ exact-size / placement counters when ctx is given)."""
+    tags = set()
+    sizes, cur, ncont, maxcont = [], 0, 0, 0
+    for line in dumped_lines(text):
+        n = len(line)
+        if n >= 10000:
+            tags.add('line>=10000')
+            if n >= 100000:
+                tags.add('line>=100000')
+        b = (n if line.isascii() else len(line.encode('utf-8'))) + 1
+        if line[:1] in (' ', '\t') and sizes:
+            sizes[-1] += b
+            ncont += 1
+            maxcont = max(maxcont, ncont)
+        else:
+            sizes.append(b)
+            ncont = 0
+    if maxcont >= 1000:
+        tags.add('conts>=1000')
+    if len(sizes) >= 200:
+        tags.add('fields>=200')
+    if sizes and max(sizes) >= 8192:
+        tags.add('entry>=8192')
+        if max(sizes) >= 65536:
+            tags.add('entry>=65536')
+    if ctx is not None and sizes:
+        top = max(sizes)
+        if top >= 4096:
+            at = sizes.index(top)
+            ctx.count('big:place:%s' % ('alone' if len(sizes) == 1 else 'first' if at == 0 else 'last' if at == len(sizes) - 1
+                                        else 'between'))
+        for s in sizes:
+            if s in BIG_SIZES:
+                ctx.count('big:entry-bytes=%d' % s)
+            elif s >= 4096 and (s + 2) % 8192 <= 4:
+                ctx.count('big:entry-bytes=k*8192+-2')
+        total = sum(sizes)
+        ctx.count('big:paragraph-bytes>=8192' if total >= 8192 else 'big:paragraph-bytes<8192')
+    return tags
+
+
+def mini_reread(deb822, expected, lines, single):
+    """Re-read of the text of a NON-primary output-route group: four containers x API, no decorations."""
+    out = []
+    for cont in ('str', 'bytes', 'lines_nl', 'bytesio'):
+        for api in (('iter_paragraphs', 'Deb822') if single else ('iter_paragraphs',)):
+            src = container(cont, lines, True)
+            try:
+                if api == 'iter_paragraphs':
+                    got = [observe(p) for p in deb822.Deb822.iter_paragraphs(src)]
+                else:
+                    got = [observe(deb822.Deb822(src))]
+            except Exception as e:
+                out.append(('reparse-raises-%s' % type(e).__name__, '%r while re-reading %s' % (e, show_lines(lines))))
+                continue
+            res = diff(expected, got)
+            if res is not None:
+                out.append((res[0], '%s; input lines %s' % (res[1], show_lines(lines))))
+    return out
 
 
 DIMS = ('container', 'armour', 'comments', 'lead', 'api')
@@ -854,13 +1383,17 @@ def evaluate(ctx, case, record=True):
     """Returns {mechanism_key: (message, n_failing_forms)}.  `record` switches the
     evidence counters (off while shrinking a witness)."""
     from debian import deb822
-    doc, mode = case['doc'], case.get('dump', 'str')
+    doc, mode = expand_doc(case['doc']), case.get('dump', 'str')
+    big = bool(case.get('big'))
     r = random.Random('C02-deco/%s' % case.get('deco', 0))
+    rr = random.Random('C02-routes/%s' % case.get('deco', 0))
     found = {}
     expected = [[[name, model_value(first, conts)] for name, first, conts in para] for para in doc]
+    tmp = workdir(ctx)
 
-    # -- build through __setitem__, dump through the chosen dump mode
-    dumps = []
+    # -- build through __setitem__, write every paragraph through EVERY output route
+    texts = dict((rt, []) for rt in ROUTES)       # route -> text per paragraph
+    raised = {}                                   # route -> (kind, message)
     for para in doc:
         d = deb822.Deb822()
         for name, first, conts in para:
@@ -868,35 +1401,89 @@ def evaluate(ctx, case, record=True):
                 d[name] = first + ''.join('\n' + c for c in conts)
             except ValueError as e:
                 found['setitem-rejects-in-domain-value/build'] = (
-                    '%r: Deb822()[%r] = %r raised' % (e, name, first + ''.join('\n' + c for c in conts)), 1)
+                    '%r: Deb822()[%r] = %s raised' % (e, name, show_lines([first] + conts)), 1)
                 return found
-        try:
-            if mode == 'str':
-                text = d.dump()
-            elif mode == 'fd_b':
-                fd = io.BytesIO()
-                d.dump(fd)
-                text = fd.getvalue().decode('utf-8')
-            elif mode == 'fd_b_enc':
-                fd = io.BytesIO()
-                d.dump(fd, encoding='utf-8')
-                text = fd.getvalue().decode('utf-8')
-            else:
-                fd = io.StringIO()
-                d.dump(fd, text_mode=True)
-                text = fd.getvalue()
-        except Exception as e:
-            found['dump-raises/%s' % type(e).__name__] = ('dump mode %s raised %r for %r' % (mode, e, para), 1)
-            return found
-        if not isinstance(text, str):
-            found['dump-returns-no-text/build'] = ('dump mode %s returned %r' % (mode, text), 1)
-            return found
-        dl = text.split('\n')
-        if dl and dl[-1] == '':
-            dl.pop()
-        dumps.append(dl)
+        # get_as_string per field: the assigned value (judged modulo the trimming of the first line only)
+        for name, first, conts in para:
+            try:
+                g = d.get_as_string(name)
+            except Exception as e:
+                found['get_as_string-raises/%s' % type(e).__name__] = ('get_as_string(%r) raised %r' % (name, e), 1)
+                break
+            if record:
+                ctx.mon('M.get_as_string')
+            want = model_value(first, conts)
+            if not isinstance(g, str):
+                found['get_as_string-differs-from-assigned-value/build'] = ('get_as_string(%r) returned %r' % (name, g), 1)
+                break
+            gl = g.split('\n')
+            if gl[0].strip(' \t') + ''.join('\n' + c for c in gl[1:]) != want:
+                found['get_as_string-differs-from-assigned-value/build'] = (
+                    'get_as_string(%r): assigned %s' % (name, show_pair(want, g)), 1)
+                break
+        for rt in ROUTES:
+            if rt in raised:
+                continue
+            try:
+                texts[rt].append(route_text(rt, d, tmp, rr))
+            except RouteFailure as e:
+                raised[rt] = (e.kind, e.msg)
+    avail = [rt for rt in ROUTES if rt not in raised]
+    by_kind = {}
+    for rt in ROUTES:
+        if rt in raised:
+            by_kind.setdefault(raised[rt][0], []).append(rt)
+    for kind, rts in by_kind.items():
+        if len(rts) == len(ROUTES):
+            key = kind + ('/build' if kind == 'dump-returns-no-text' else '')
+        else:
+            key = '%s/output-route=%s' % (kind, '+'.join(rts))
+        found[key] = ('%s [routes %s] for %s' % (raised[rts[0]][1], '+'.join(rts), show_lines(['%a' % (doc,)], 1500)), len(rts))
+    if not avail:
+        return found
+    groups = {}                                   # texts of all paragraphs -> the routes that produced exactly them
+    for rt in avail:
+        groups.setdefault(tuple(texts[rt]), []).append(rt)
+    primary = mode if mode in avail else avail[0]
+    doc_tags = set()
     if record:
         ctx.count('dump:%s' % mode)
+        for rt in avail:
+            ctx.count('route:%s' % rt, len(doc))
+        if len(groups) > 1:
+            ctx.count('routes:texts-differ')
+        if big:
+            for text in texts[primary]:
+                tags = size_tags(text, ctx)
+                doc_tags |= tags
+                for t in tags:
+                    ctx.count('big:%s' % t)
+                    for rt in avail:
+                        ctx.count('big:%s:route:%s' % (t, rt))
+    single = len(doc) == 1
+    for gtexts, rts in groups.items():
+        if primary in rts:
+            continue
+        # another output route produced ANOTHER text: it must re-read as the model too
+        lines = []
+        for i, text in enumerate(gtexts):
+            if i:
+                lines.append('')
+            lines += dumped_lines(text)
+        if record:
+            ctx.mon('M.route-variant')
+        fl = mini_reread(deb822, expected, lines, single)
+        seen = {}
+        for kind, msg in fl:
+            seen.setdefault(kind, []).append(msg)
+        for kind, msgs in seen.items():
+            found['%s/output-route=%s' % (kind, '+'.join(rts))] = (
+                'output route(s) %s wrote a text that differs from the text of route %s and re-reads differently: %s  '
+                '[%d re-reads differ]' % ('+'.join(rts), primary, msgs[0], len(msgs)), len(msgs))
+        if not fl and record:
+            ctx.count('unjudged:output-route-text-differs-but-re-reads-as-the-model')
+    dumps = [dumped_lines(text) for text in texts[primary]]
+    route_note = '+'.join(groups[tuple(texts[primary])]) if len(groups) > 1 else None
 
     base = []
     for i, dl in enumerate(dumps):
@@ -933,17 +1520,25 @@ def evaluate(ctx, case, record=True):
         uni_features(ctx, doc, utags)
     unames = {}       # (api, form name) -> counter names of this document's classes
     marker_trail = bool(aparams['t1'] or aparams['t2'] or aparams['t3'])
+    # "big" documents run a rotating third of the grid: two plain cells that differ in BOTH comments and leading blanks,
+    # one armoured cell, half of the in-memory containers per cell (+ the rotating real-file forms of the cell)
+    big_plain = ((0, 0), (1, 1)) if salt & 8 else ((0, 1), (1, 0))
+    big_arm = (salt >> 4) & 3
+    btags = sorted(doc_tags & set(BIG_TAGS)) if record else []
     cell = -1
     for arm in ((0, 1) if single else (0,)):
         for com in (0, 1):
             for lead in (0, 1):
                 cell += 1
+                if big and ((com * 2 + lead != big_arm) if arm else ((com, lead) not in big_plain)):
+                    continue
+                mem = CONTAINERS[(cell + (salt >> 6)) & 1::2] if big else CONTAINERS
                 if arm:
                     # the armour wraps the paragraph text *including its comments*; lines outside the signed
                     # payload (before BEGIN, armour headers, signature) are not deb822 text - no comments there
                     lines = (blanks if lead else []) + armour(c_base if com else base, aparams)
                     if marker_trail and record:
-                        ctx.count('feat:marker-trailing-blank-or-cr', len(CONTAINERS))
+                        ctx.count('feat:marker-trailing-blank-or-cr', len(mem))
                 else:
                     lines = ((c_blanks if com else blanks) if lead else []) + (c_base if com else base)
                 text = '\n'.join(lines) + ('\n' if final_nl else '')
@@ -953,7 +1548,7 @@ def evaluate(ctx, case, record=True):
                 # so that within ONE case every family is seen through both kinds and, on single paragraphs, under
                 # all four comments x leading-blank combinations (see rotation())
                 blobs = {}
-                conts = list(CONTAINERS)
+                conts = list(mem)
                 half, kind_bit, spell_bit = rotation(cell, salt)
                 if half == 0:
                     blobs['binfile'] = text.encode('utf-8')
@@ -1025,6 +1620,15 @@ def evaluate(ctx, case, record=True):
                                     ctx.count('gpgapi-encfile:%s' % ('utf-8' if enc in UTF8_SPELLINGS else 'non-utf-8'))
                             elif cont == 'binfile':
                                 ctx.mon('M.binfile')
+                            if big:
+                                ctx.mon('M.big')
+                                for t in btags:
+                                    ctx.count('big:%s:form:%s' % (t, form_name(cont)))
+                                    ctx.count('big:%s:api:%s' % (t, api))
+                                    if arm:
+                                        ctx.count('big:%s:armour' % t)
+                                    if com:
+                                        ctx.count('big:%s:comments' % t)
                             if utags:
                                 ukey = (api, cont)
                                 names = unames.get(ukey)
@@ -1048,16 +1652,18 @@ def evaluate(ctx, case, record=True):
                                 got = [observe(deb822.Changes(src))]
                         except Exception as e:
                             failures.setdefault('reparse-raises-%s' % type(e).__name__, []).append(
-                                (form, '%r while re-reading %r' % (e, lines)))
+                                (form, '%r while re-reading %s' % (e, show_lines(lines))))
                             continue
                         finally:
                             closer()
                         res = diff(expected, got)
                         if res is not None:
-                            failures.setdefault(res[0], []).append((form, '%s; input lines %a' % (res[1], lines)))
+                            failures.setdefault(res[0], []).append((form, '%s; input lines %s' % (res[1], show_lines(lines))))
     for kind, fl in failures.items():
         forms = [f for f, _ in fl]
-        key = '%s/%s' % (kind, scope(forms, executed))
+        # all output routes agree on the text (always, on the unchanged tree): the key names the input-form classes; if
+        # they do not, it names the routes that wrote this text
+        key = '%s/%s' % (kind, scope(forms, executed) if route_note is None else 'output-route=' + route_note)
         found[key] = ('form (container, armour, comments, lead, api)=%r: %s  [%d of %d forms differ]'
                       % (fl[0][0], fl[0][1], len(fl), len(executed)), len(fl))
     return found
@@ -1065,10 +1671,10 @@ def evaluate(ctx, case, record=True):
 
 def shrink(ctx, case, key):
     """Greedy reduction of the model document while the same mechanism key is still reported."""
-    budget = [40]
+    budget = [12 if case.get('big') else 40]      # (a "big" evaluation is expensive)
 
     def still(c):
-        if budget[0] <= 0 or not in_domain(c['doc']):
+        if budget[0] <= 0 or not in_domain(expand_doc(c['doc'])):
             return False
         budget[0] -= 1
         try:
@@ -1076,10 +1682,11 @@ def shrink(ctx, case, key):
         except Exception:
             return False
 
-    cur = {'doc': [[[n, f, list(cs)] for n, f, cs in p] for p in case['doc']],
+    cur = {'doc': [[_copy_item(x) for x in p] for p in case['doc']],
            'dump': case.get('dump', 'str'), 'deco': case.get('deco', 0)}
-    if 'uni' in case:
-        cur['uni'] = case['uni']
+    for k in ('uni', 'big'):
+        if k in case:
+            cur[k] = case[k]
     changed = True
     while changed and budget[0] > 0:
         changed = False
@@ -1099,14 +1706,20 @@ def shrink(ctx, case, key):
                 fi = min(fi, len(cur['doc'][pi]) - 1)
         for pi in range(len(cur['doc'])):
             for fi in range(len(cur['doc'][pi])):
+                if isinstance(cur['doc'][pi][fi], dict):
+                    continue
                 n, f, cs = cur['doc'][pi][fi]
                 for ci in range(len(cs) - 1, -1, -1):
-                    cand = dict(cur, doc=[[list(x) for x in p] for p in cur['doc']])
+                    cand = dict(cur, doc=[[_copy_item(x) for x in p] for p in cur['doc']])
                     cand['doc'][pi][fi] = [n, f, cs[:ci] + cs[ci + 1:]]
                     if still(cand):
                         cur, changed = cand, True
                         n, f, cs = cur['doc'][pi][fi]
     return cur
+
+
+def _copy_item(x):
+    return dict(x) if isinstance(x, dict) else [x[0], x[1], list(x[2])]
 
 
 # ---------------------------------------------------------------------------
@@ -1130,17 +1743,32 @@ def cases(ctx):
     for i, doc, profile in uni_grid_docs():
         if ctx.mine(i):
             yield {'doc': doc, 'dump': DUMP_MODES[(i + i // 4) % 4], 'deco': 500000 + i * 7 + ctx.seed, 'uni': profile}
+    # "big" class: the enumerated threshold grid (sizes x placements x shapes; contents vary with VERIF_SEED) + random ones
+    for i, doc, cls in big_grid_docs(ctx.seed):
+        if ctx.mine(i + ctx.seed):
+            yield {'doc': doc, 'dump': DUMP_MODES[(i + i // 4 + ctx.seed) % 4], 'deco': 900000 + i * 11 + ctx.seed, 'big': cls}
+    rb = ctx.rng('big-docs')
+    for i in range(ctx.size(BIG_DOCS['quick'], BIG_DOCS['thorough'])):
+        for _ in range(20):
+            doc, cls = gen_big_doc(rb, ctx.quick)
+            if in_domain(expand_doc(doc)):
+                break
+        yield {'doc': doc, 'dump': DUMP_MODES[(i + ctx.shard) % 4], 'deco': rb.getrandbits(32), 'big': cls}
 
 
 def run_case(ctx, case):
-    doc = case['doc']
+    compact = case['doc']
+    doc = expand_doc(compact)
     if not in_domain(doc):
         ctx.count('skipped:out-of-domain')
         return
+    if case.get('big'):
+        ctx.count('doc:big')
+        ctx.count('big:class:%s' % case['big'])
     ctx.count('doc:paragraphs>=2' if len(doc) >= 2 else 'doc:paragraphs=1')
     ctx.count('doc:fields', sum(len(p) for p in doc))
     if features(ctx, doc):
-        ctx.nontrivial(case, key=core.case_hash(doc))
+        ctx.nontrivial(case, key=core.case_hash(compact))
     if case.get('uni'):
         ctx.count('doc:uni')
     found = evaluate(ctx, case)
@@ -1159,8 +1787,11 @@ def run_case(ctx, case):
 
 LEVEL_TEXT = ('Runtime monitoring of the live Deb822 / iter_paragraphs / Dsc / Changes code: seeded model documents '
               '(3k quick / 160k thorough random, with character profiles any / latin-1 / cp1252 / ASCII, + an enumerated '
-              'hostile-first-line x hostile-continuation grid + every admissible first character of a field name) are built '
-              'through __setitem__, dumped by the library (str, binary fd with/without explicit encoding, text fd) and re-read '
+              'hostile-first-line x hostile-continuation grid + every admissible first character of a field name + a "big" class: '
+              'entries of 4096..65536 bytes at the buffer-size thresholds, 200+ fields, 10k-140k character lines, 1000+ '
+              'continuation lines) are built through __setitem__, written by the library through EVERY output route (dump() '
+              'str, dump(fd) binary in memory and into real files with default / no / odd buffers, dump(fd, text_mode=True) into '
+              'StringIO / TextIOWrapper / a real text file, str(p), bytes(p); get_as_string per field) and re-read '
               'through every input-form class (6 in-memory containers + real text file objects with a declared encoding - '
               'TextIOWrapper and disk files in utf-8, iso-8859-1/latin-1, cp1252, utf-16 - + a real binary file, x '
               'plain/clearsign armour x comments x leading blank lines x API); every re-read is compared with the model '
